@@ -12,7 +12,8 @@ RULE = ("random proper subsets of n_il x n_xl grids (every line keeps >=1 trace;
         "first/last trace) with independent starts and unequal increments x detection modes heuristic/thorough/exhaustive x "
         "layouts: inferred axes, tracecount, structured=False, trace i/header i == i-th source trace/header, tracefield grids "
         "with zeros at holes, volume reads == zfpy image of the zero-filled grid bit for bit"
-        "; K: Model/Irregular inferRange vs the header grid and populated (ordinal -> grid slot) vs the reader's mask, on executions of the irregular route")
+        "; K: Model/Irregular inferRange vs the header grid and populated (ordinal -> grid slot) vs the reader's mask, on executions of the irregular route"
+        "; Model/HeaderReads.run vs real header histories on files with holes (masked and padded mode)")
 
 
 def one(ctx, rng, k):
@@ -172,6 +173,9 @@ def run(ctx):
         run_(ctx)
     finally:
         MODEL.pop('m').close()
+    # K: the header-read state machine (Model/HeaderReads) on files with holes: header t = header of the t-th populated slot
+    from . import c15
+    c15.header_histories(ctx, n_quick=10, n_thorough=200, kinds=('irregular',), tag='c08-headers')
 
 
 def run_(ctx):
